@@ -315,8 +315,9 @@ def build(tier, seed):
     rounds = 2 if tier == "quick" else 10
     P = fam_lengths(rng, rounds) + fam_auto(rng, 2 if tier == "quick" else 4) + fam_lifetimes()
     # length-generic callers stating only the documented bounds (accept only)
-    from c12_generic import CANDS
+    from c12_generic import CANDS, REJECTS
     P += [Prog("length", name, {}, "accept", body) for name, body in CANDS.items()]
+    P += [Prog("length", name, {}, "reject", body) for name, body in REJECTS.items()]
     seen = set()
     out = []
     for p in P:
